@@ -376,6 +376,13 @@ def known_findings():
 def finish(prop, tier, seed, level, coverage, violations, t0, assumptions=(), drift=()):
     """violations: list of dicts with at least 'key' (specific failing case) and 'what'.
     Writes evidence, replay files, prints verdict lines and exits."""
+    # a check that explored nothing must not report that the property held
+    if level == "model_checking":
+        empty = not (coverage.get("states", 0) >= 1 and coverage.get("transitions", 0) >= 1 and coverage.get("traces_validated_against_impl", 0) >= 1 and coverage.get("samples"))
+    else:
+        empty = not (coverage.get("evaluations", 0) >= 1 and coverage.get("distinct_nontrivial", 0) >= 2 and coverage.get("samples"))
+    if empty and not violations:
+        raise ToolError("check %s explored nothing (coverage %s)" % (prop, {k: coverage.get(k) for k in ("states", "transitions", "traces_validated_against_impl", "evaluations", "distinct_nontrivial")}))
     known = [k for k in known_findings() if k["prop"] == prop]
     edir = os.environ.get("VERIF_EVIDENCE_DIR", os.path.join(VERIF, "evidence"))
     os.makedirs(edir, exist_ok=True)
